@@ -1,8 +1,653 @@
-//! C05 — see /verif/DESIGN.md §3.
-use vf_core::{Args, Ctx};
+//! C05 — offset packing is sound: every offset resolves to its target or
+//! packing fails with `Error::PackingFailed` (never bytes with a wrong offset,
+//! never a panic). See /verif/DESIGN.md §3.
+//!
+//! Workloads
+//!  (a) exhaustive enumeration of all labelled DAG shapes with <= 5 nodes
+//!      (upper-triangular adjacency, every node has a parent) x link widths x
+//!      size alphabet {10, 40000, 65530};
+//!  (b) seeded random DAGs up to 40 nodes (sharing, multi-links, adjustments);
+//!  (c) real GPOS PairPos / MarkBasePos lookups at 1x-4x the 64 KiB limit.
+//! Oracle: `spec::resolve` (graphs), read-back + rule multiset (GPOS).
+//!
+//! Known defect (open finding): `Graph::isolate_subgraph_hb` re-links the wide
+//! parents of a duplicated space root by iterating the *duplicate's* (empty)
+//! parent list, so the duplicate root is orphaned; when one of its duplicated
+//! descendants also has a live parent, `sort_shortest_distance` never sees all
+//! of that descendant's incoming edges and panics "cycle or something?".
 
-pub const REPLAY: Option<fn(&mut Ctx, &Args, &serde_json::Value, Option<&[u8]>)> = None;
+pub mod gpos;
+pub mod spec;
+
+use serde_json::{json, Value};
+use spec::{Link, NodeSpec, PayloadCache, Spec};
+use vf_core::{fnv64, Args, Ctx, Digest, PanicInfo, Rng};
+use write_fonts::{dump_table, error::Error, verif_graph_hooks as hooks};
+
+pub const REPLAY: Option<fn(&mut Ctx, &Args, &serde_json::Value, Option<&[u8]>)> = Some(replay);
+
+pub const SIZE_ALPHABET: [u32; 3] = [10, 40000, 65530];
+/// name of the structural class of the known defect, see `Spec::has_mixed_root_with_shared_descendant`
+pub const KNOWN_CLASS: &str = "root-with-16+32bit-parents-and-shared-descendant";
 
 pub fn run(ctx: &mut Ctx, _args: &Args) {
-    ctx.rule = "stub".into();
+    ctx.level = "runtime-monitoring".into();
+    ctx.rule = "graph cases: the object graph has >= 1 link and the plain topological (Kahn) order overflowed, \
+                i.e. the recorded stage trace is longer than [kahn] (shortest-distance / space assignment / \
+                isolation+duplication / PackingFailed paths ran); GPOS cases: the table exceeds 64 KiB in at \
+                least one lookup so that split_check or promote ran. Digest = the abstract spec (sizes, links, \
+                widths, positions, adjustments) resp. the GPOS recipe"
+        .into();
+    ctx.assumptions = vec![
+        "input graphs are acyclic and every object is reachable from the root (cyclic inputs are outside the property)".into(),
+        "offset adjustments are only used on links to leaf objects and never exceed the parent's size (the public adjust_offsets contract: the adjustment in force is inherited by nested objects and a larger one makes the offset negative)".into(),
+        "mock objects carry TableType::Unknown, so splitting/promotion are exercised by the real GPOS workload only".into(),
+    ];
+    let _ = hooks::take_trace();
+
+    exhaustive(ctx);
+    random_graphs(ctx);
+    gpos::run(ctx);
+}
+
+// ---------------------------------------------------------------- one graph case
+
+pub struct CaseOut {
+    pub outcome: &'static str,
+    pub trace: String,
+}
+
+fn compress_trace(t: &[&'static str]) -> String {
+    let mut s = String::new();
+    let mut i = 0;
+    let mut groups = 0;
+    while i < t.len() {
+        let mut j = i;
+        while j < t.len() && t[j] == t[i] {
+            j += 1;
+        }
+        if groups == 40 {
+            s.push_str(",...");
+            break;
+        }
+        if !s.is_empty() {
+            s.push(',');
+        }
+        s.push_str(t[i]);
+        if j - i > 1 {
+            // bucket the run length so that the number of distinct traces stays meaningful
+            let n = j - i;
+            let b = if n < 4 { n.to_string() } else if n < 16 { "4+".into() } else { "16+".into() };
+            s.push_str(&format!("x{}", b));
+        }
+        groups += 1;
+        i = j;
+    }
+    s
+}
+
+/// Run the real compiler on `spec` and judge the result.
+pub fn run_graph_case(ctx: &mut Ctx, spec: &Spec, workload: &str, case_id: &str) -> CaseOut {
+    if let Err(e) = spec.well_formed() {
+        ctx.inconclusive(format!("generator produced a malformed spec ({}): {}", case_id, e));
+        return CaseOut { outcome: "harness", trace: String::new() };
+    }
+    ctx.eval();
+    ctx.count(&format!("{}:cases", workload), 1);
+    let _ = hooks::take_trace();
+    let objs_before = hooks::object_counter();
+    let label = || format!("{} {}", case_id, spec.to_json());
+    let res = ctx.run_case(&label, None, &|| dump_table(&spec.root()));
+    let trace_v = hooks::take_trace();
+    let objs = hooks::object_counter().saturating_sub(objs_before);
+    let trace = compress_trace(&trace_v);
+    ctx.distinct("stage_traces", fnv64(trace.as_bytes()));
+    ctx.label("stage_traces", &trace);
+    for st in ["kahn", "shortest_distance", "assign_spaces", "isolate_subgraph", "duplicate_subgraph"] {
+        if trace_v.iter().any(|s| *s == st) {
+            ctx.count(&format!("stage_reached:{}", st), 1);
+        }
+    }
+    let beyond_kahn = trace_v.len() > 1;
+    if spec.n_links() > 0 && beyond_kahn {
+        ctx.nontrivial(spec.digest());
+        ctx.count("nontrivial_cases", 1);
+    }
+    let outcome: &'static str = match res {
+        Ok(Ok(bytes)) => match spec::resolve(spec, &bytes) {
+            Ok(r) => {
+                ctx.count("outcome:success_all_offsets_resolved", 1);
+                ctx.count("links_resolved", r.links_followed);
+                if r.duplicates > 0 {
+                    ctx.count("success_with_duplicated_objects", 1);
+                    ctx.count("objects_duplicated_in_output", r.duplicates as u64);
+                }
+                if !r.exact_cover {
+                    ctx.count("success_output_has_bytes_not_reached_from_root", 1);
+                }
+                if r.max_off16 > 0x7fff {
+                    ctx.count("success_with_16bit_offset_above_32767", 1);
+                }
+                if r.max_off16 >= 65000 {
+                    ctx.count("success_with_16bit_offset_ge_65000", 1);
+                }
+                if r.max_off32 > 0xffff || r.max_off24 > 0xffff {
+                    ctx.count("success_with_wide_offset_above_65535", 1);
+                }
+                if beyond_kahn {
+                    ctx.count("success_after_kahn_overflowed", 1);
+                    ctx.sample_by_kind(
+                        if r.duplicates > 0 { "success-with-duplication" } else { "success-after-reordering" },
+                        json!({"id": case_id, "spec": spec.to_json(), "trace": trace, "out_len": bytes.len(), "placements": r.placements}),
+                    );
+                }
+                let _ = objs;
+                "success"
+            }
+            Err(b) => {
+                ctx.count("outcome:success_but_misresolved", 1);
+                let sig = format!("misresolved:{}:{}", b.kind, case_id);
+                ctx.violation(
+                    &sig,
+                    json!({"what": "dump_table returned Ok but an offset does not land on its target", "problem": b.detail, "kind": b.kind,
+                           "workload": workload, "spec": spec.to_json(), "trace": trace, "out_len": bytes.len()}),
+                    None,
+                );
+                "misresolved"
+            }
+        },
+        Ok(Err(Error::PackingFailed(_))) => {
+            ctx.count("outcome:packing_failed", 1);
+            ctx.sample_by_kind("packing-failed", json!({"id": case_id, "spec": spec.to_json(), "trace": trace}));
+            "packing_failed"
+        }
+        Ok(Err(e)) => {
+            ctx.inconclusive(format!("unexpected error kind for {}: {}", case_id, e));
+            "harness"
+        }
+        Err(p) => {
+            judge_pack_panic(ctx, &p, spec, workload, case_id, &trace);
+            "panic"
+        }
+    };
+    CaseOut { outcome, trace }
+}
+
+fn is_known_cycle_panic(p: &PanicInfo) -> bool {
+    p.file.ends_with("write-fonts/src/graph.rs") && p.msg == "cycle or something?"
+}
+
+fn judge_pack_panic(ctx: &mut Ctx, p: &PanicInfo, spec: &Spec, workload: &str, case_id: &str, trace: &str) {
+    if !p.in_repo() {
+        ctx.inconclusive(format!("harness panic {}:{} {}", p.file, p.line, p.msg));
+        return;
+    }
+    ctx.count("outcome:panic", 1);
+    ctx.count(&format!("panic_class:{}", p.class.as_str()), 1);
+    // The known defect's class is decided on the INPUT only; the trace must show
+    // that duplication ran (the panic needs an orphaned duplicate).
+    let known_class = is_known_cycle_panic(p)
+        && trace.contains("duplicate_subgraph")
+        && trace.ends_with("shortest_distance")
+        && spec.has_mixed_root_with_shared_descendant();
+    let sig = if known_class {
+        ctx.count("panic_in_known_class", 1);
+        format!("pack-panic:{}:{}:{}", p.file, p.line, KNOWN_CLASS)
+    } else {
+        format!("pack-panic:{}:{}:unclassified:{}", p.file, p.line, case_id)
+    };
+    ctx.violation(
+        &sig,
+        json!({"what": "dump_table panicked on an acyclic object graph instead of returning Ok/PackingFailed",
+               "panic": {"file": p.file, "line": p.line, "msg": p.msg, "class": p.class.as_str()},
+               "workload": workload, "case": case_id, "spec": spec.to_json(), "trace": trace}),
+        None,
+    );
+}
+
+// ---------------------------------------------------------------- (a) exhaustive
+
+fn pairs(n: usize) -> Vec<(usize, usize)> {
+    let mut v = vec![];
+    for j in 1..n {
+        for i in 0..j {
+            v.push((i, j));
+        }
+    }
+    v
+}
+
+const WIDTH_OF_STATE: [u8; 4] = [0, 2, 4, 3]; // state 0 = no edge; 1 = 16, 2 = 32, 3 = 24
+
+/// Build the spec for edge-state digits `e` (one per pair, in `pairs(n)` order)
+/// and size digits `s`. Returns None when some node has no parent.
+fn exh_spec(n: usize, e: &[u8], s: &[u8], cache: &mut PayloadCache) -> Option<Spec> {
+    let pr = pairs(n);
+    let mut nodes = vec![NodeSpec::default(); n];
+    let mut has_parent = vec![false; n];
+    has_parent[0] = true;
+    for (k, (i, j)) in pr.iter().enumerate() {
+        if e[k] != 0 {
+            has_parent[*j] = true;
+            let pos = 4 + nodes[*i].links.iter().map(|l| l.width as u32).sum::<u32>();
+            nodes[*i].links.push(Link { to: *j, width: WIDTH_OF_STATE[e[k] as usize], pos, adj: 0 });
+        }
+    }
+    if has_parent.iter().any(|x| !*x) {
+        return None;
+    }
+    for (i, nd) in nodes.iter_mut().enumerate() {
+        nd.links.sort_by_key(|l| l.pos);
+        let lb: u32 = nd.links.iter().map(|l| l.width as u32).sum();
+        nd.size = SIZE_ALPHABET[s[i] as usize].max(4 + lb);
+    }
+    Some(Spec::new(nodes, Some(cache)))
+}
+
+fn digits(mut x: u64, base: u64, len: usize) -> Vec<u8> {
+    let mut v = vec![0u8; len];
+    for d in v.iter_mut() {
+        *d = (x % base) as u8;
+        x /= base;
+    }
+    v
+}
+
+fn dstr(v: &[u8]) -> String {
+    v.iter().map(|d| (b'0' + d) as char).collect()
+}
+
+/// Does some plain topological order (no duplication) satisfy all widths?
+/// Evidence only: how incomplete the heuristic is. n <= 5.
+fn layout_exists(spec: &Spec) -> bool {
+    let n = spec.nodes.len();
+    let mut perm: Vec<usize> = (1..n).collect();
+    let mut ok = false;
+    permute(&mut perm, 0, &mut |p| {
+        if ok {
+            return;
+        }
+        let mut pos = vec![0u64; n];
+        let mut cur = spec.nodes[0].size as u64;
+        for &x in p.iter() {
+            pos[x] = cur;
+            cur += spec.nodes[x].size as u64;
+        }
+        for (i, nd) in spec.nodes.iter().enumerate() {
+            for l in &nd.links {
+                if pos[l.to] < pos[i] + l.adj as u64 {
+                    return;
+                }
+                let v = pos[l.to] - pos[i] - l.adj as u64;
+                let max = match l.width {
+                    2 => 0xffffu64,
+                    3 => 0xff_ffff,
+                    _ => 0xffff_ffff,
+                };
+                if v > max {
+                    return;
+                }
+            }
+        }
+        ok = true;
+    });
+    ok
+}
+
+fn permute(v: &mut Vec<usize>, k: usize, f: &mut dyn FnMut(&[usize])) {
+    if k == v.len() {
+        f(v);
+        return;
+    }
+    for i in k..v.len() {
+        v.swap(k, i);
+        permute(v, k + 1, f);
+        v.swap(k, i);
+    }
+}
+
+fn exh_one(ctx: &mut Ctx, tag: &str, n: usize, e: &[u8], s: &[u8], cache: &mut PayloadCache) {
+    let Some(spec) = exh_spec(n, e, s, cache) else { return };
+    let id = format!("{}:n{}:e{}:s{}", tag, n, dstr(e), dstr(s));
+    let out = run_graph_case(ctx, &spec, tag, &id);
+    if out.outcome == "packing_failed" && layout_exists(&spec) {
+        ctx.count("packing_failed_although_a_plain_topological_layout_exists(heuristic incompleteness, allowed)", 1);
+    }
+    if out.outcome == "panic" || out.outcome == "packing_failed" || out.outcome == "success" {
+        ctx.count(&format!("{}:n{}:{}", tag, n, out.outcome), 1);
+    }
+}
+
+fn exhaustive(ctx: &mut Ctx) {
+    let mut cache = PayloadCache::default();
+    let thorough = ctx.tier.is_thorough();
+    let mut item = 0usize;
+    let mut scope = vec![];
+    // full spaces: widths {16,32} for n <= 4 (quick) / n <= 5 (thorough);
+    // widths {16,24,32} for n <= 4 in both tiers.
+    for (tag, base, nmax) in [("exh", 3u64, if thorough { 5usize } else { 4 }), ("exh24", 4u64, 4usize)] {
+        for n in 1..=nmax {
+            let m = n * (n - 1) / 2;
+            let ne = base.pow(m as u32);
+            let ns = 3u64.pow(n as u32);
+            let mut shapes = 0u64;
+            for ec in 0..ne {
+                let e = digits(ec, base, m);
+                if tag == "exh24" && !e.contains(&3) {
+                    continue; // already covered by "exh"
+                }
+                // every node needs a parent
+                let pr = pairs(n);
+                let mut hp = vec![false; n];
+                hp[0] = true;
+                for (k, (_, j)) in pr.iter().enumerate() {
+                    if e[k] != 0 {
+                        hp[*j] = true;
+                    }
+                }
+                if hp.iter().any(|x| !*x) {
+                    continue;
+                }
+                shapes += 1;
+                for sc in 0..ns {
+                    item += 1;
+                    if !ctx.mine(item) {
+                        continue;
+                    }
+                    let s = digits(sc, 3, n);
+                    exh_one(ctx, tag, n, &e, &s, &mut cache);
+                }
+            }
+            scope.push(json!({"workload": tag, "nodes": n, "shapes": shapes, "size_vectors": ns, "cases": shapes * ns}));
+        }
+    }
+    // small multigraphs: n <= 3, up to two parallel links per pair
+    {
+        // pair states: none, [16], [32], [16,16], [16,32], [32,16], [32,32]
+        const ST: [&[u8]; 7] = [&[], &[2], &[4], &[2, 2], &[2, 4], &[4, 2], &[4, 4]];
+        for n in 2..=3usize {
+            let pr = pairs(n);
+            let m = pr.len();
+            let mut cases = 0u64;
+            for ec in 0..7u64.pow(m as u32) {
+                let e = digits(ec, 7, m);
+                for sc in 0..3u64.pow(n as u32) {
+                    let s = digits(sc, 3, n);
+                    let mut nodes = vec![NodeSpec::default(); n];
+                    let mut hp = vec![false; n];
+                    hp[0] = true;
+                    for (k, (i, j)) in pr.iter().enumerate() {
+                        for w in ST[e[k] as usize] {
+                            hp[*j] = true;
+                            let pos = 4 + nodes[*i].links.iter().map(|l| l.width as u32).sum::<u32>();
+                            nodes[*i].links.push(Link { to: *j, width: *w, pos, adj: 0 });
+                        }
+                    }
+                    if hp.iter().any(|x| !*x) {
+                        continue;
+                    }
+                    cases += 1;
+                    item += 1;
+                    if !ctx.mine(item) {
+                        continue;
+                    }
+                    for (i, nd) in nodes.iter_mut().enumerate() {
+                        let lb: u32 = nd.links.iter().map(|l| l.width as u32).sum();
+                        nd.size = SIZE_ALPHABET[s[i] as usize].max(4 + lb);
+                    }
+                    let spec = Spec::new(nodes, Some(&mut cache));
+                    let id = format!("exhmulti:n{}:e{}:s{}", n, dstr(&e), dstr(&s));
+                    run_graph_case(ctx, &spec, "exhmulti", &id);
+                }
+            }
+            scope.push(json!({"workload": "exhmulti", "nodes": n, "cases": cases}));
+        }
+    }
+    // seeded samples of the spaces that are too large to enumerate in this tier
+    let samples: Vec<(&str, u64, usize, u64)> = if thorough {
+        vec![("smp24", 4, 5, 1_500_000)]
+    } else {
+        vec![("smp", 3, 5, 400_000), ("smp24", 4, 5, 100_000)]
+    };
+    for (tag, base, n, count) in samples {
+        let m = n * (n - 1) / 2;
+        for k in 0..count {
+            item += 1;
+            if !ctx.mine(item) {
+                continue;
+            }
+            let mut r = Rng::derive(ctx.seed, tag, k);
+            // draw until every node has a parent (rejection keeps the distribution uniform)
+            let (e, s) = loop {
+                let e: Vec<u8> = (0..m).map(|_| r.below(base) as u8).collect();
+                let pr = pairs(n);
+                let mut hp = vec![false; n];
+                hp[0] = true;
+                for (q, (_, j)) in pr.iter().enumerate() {
+                    if e[q] != 0 {
+                        hp[*j] = true;
+                    }
+                }
+                if hp.iter().all(|x| *x) {
+                    let s: Vec<u8> = (0..n).map(|_| r.below(3) as u8).collect();
+                    break (e, s);
+                }
+            };
+            exh_one(ctx, tag, n, &e, &s, &mut cache);
+        }
+        scope.push(json!({"workload": tag, "nodes": n, "sampled_cases": count}));
+    }
+    ctx.exhaustive = Some(thorough);
+    ctx.extra.insert(
+        "exhaustive_scope".into(),
+        json!({"size_alphabet": SIZE_ALPHABET, "fully_enumerated": scope,
+               "note": "ctx.exhaustive=true means: every labelled DAG shape with <= 5 nodes x widths {16,32} x size alphabet was run (thorough); quick enumerates <= 4 nodes fully ({16,24,32}) and samples 5-node graphs"}),
+    );
+}
+
+// ---------------------------------------------------------------- (b) random DAGs
+
+fn draw_size(r: &mut Rng, mode: u64, n: usize) -> u32 {
+    match mode {
+        0 => r.below(70001) as u32,
+        1 => {
+            if r.chance(1, 6) {
+                r.range(30000, 70000) as u32
+            } else {
+                r.below(200) as u32
+            }
+        }
+        2 => *r.pick(&[0u32, 1, 2, 10, 40000, 65530, 65534, 65535, 65536, 70000]),
+        3 => {
+            // the whole graph is near the 64 KiB limit
+            let per = 65536 / n as i64;
+            r.range((per - per / 4).max(0), per + per / 4 + 8) as u32
+        }
+        _ => {
+            if r.chance(1, 3) {
+                r.range(65500, 65560) as u32
+            } else {
+                r.below(3000) as u32
+            }
+        }
+    }
+}
+
+fn draw_width(r: &mut Rng, mode: u64) -> u8 {
+    match mode {
+        0 => 2,
+        1 => {
+            if r.chance(1, 5) {
+                4
+            } else {
+                2
+            }
+        }
+        2 => *r.pick(&[2u8, 3, 4]),
+        3 => {
+            if r.chance(1, 5) {
+                2
+            } else {
+                4
+            }
+        }
+        4 => {
+            if r.chance(1, 3) {
+                3
+            } else {
+                2
+            }
+        }
+        _ => {
+            if r.bool() {
+                2
+            } else {
+                4
+            }
+        }
+    }
+}
+
+pub fn random_spec(r: &mut Rng) -> Spec {
+    let n = match r.below(10) {
+        0..=4 => r.range(2, 8) as usize,
+        5..=7 => r.range(9, 20) as usize,
+        _ => r.range(21, 40) as usize,
+    };
+    let size_mode = r.below(5);
+    let width_mode = r.below(6);
+    let share_num = *r.pick(&[0u64, 1, 3, 5]); // extra-parent probability /10
+    let multi = r.chance(1, 3);
+    let adjust = r.chance(1, 4);
+    let layout_mode = r.below(3);
+    let sizes: Vec<u32> = (0..n).map(|_| draw_size(r, size_mode, n)).collect();
+    // out-links per node, with path accounting to bound the adapter's work
+    let mut out: Vec<Vec<(usize, u8)>> = vec![vec![]; n];
+    let mut paths = vec![0u64; n];
+    paths[0] = 1;
+    let mut total_paths = 1u64;
+    let mut total_bytes = sizes[0] as u64;
+    const MAX_PATHS: u64 = 3000;
+    const MAX_BYTES: u64 = 20_000_000;
+    for j in 1..n {
+        // first parent: biased towards recent nodes (deep) or the root (flat)
+        let first = match r.below(3) {
+            0 => 0,
+            1 => j - 1 - r.usize(j.min(3)),
+            _ => r.usize(j),
+        };
+        let mut ps = vec![first];
+        while ps.len() < 6 && r.chance(share_num, 10) {
+            ps.push(r.usize(j));
+        }
+        if multi && r.chance(1, 4) {
+            let p = *r.pick(&ps);
+            ps.push(p);
+        }
+        if !multi {
+            ps.sort_unstable();
+            ps.dedup();
+        }
+        let mut pj = 0u64;
+        for (k, p) in ps.iter().enumerate() {
+            let add = paths[*p];
+            let would = pj + add;
+            if k > 0 && (total_paths + would > MAX_PATHS || total_bytes + would * sizes[j] as u64 > MAX_BYTES) {
+                continue;
+            }
+            pj = would;
+            out[*p].push((j, draw_width(r, width_mode)));
+        }
+        paths[j] = pj;
+        total_paths += pj;
+        total_bytes += pj * sizes[j] as u64;
+    }
+    let mut nodes = vec![];
+    for i in 0..n {
+        let mut ls = std::mem::take(&mut out[i]);
+        r.shuffle(&mut ls);
+        let lb: u32 = ls.iter().map(|l| l.1 as u32).sum();
+        let size = sizes[i].max(lb);
+        let slack = size - lb;
+        // distribute the slack between the offset fields
+        let mut cuts: Vec<u32> = match layout_mode {
+            0 => vec![0; ls.len()],                                       // fields first
+            1 => vec![slack; ls.len()],                                   // fields last
+            _ => (0..ls.len()).map(|_| r.below(slack as u64 + 1) as u32).collect(), // scattered
+        };
+        cuts.sort_unstable();
+        let mut links = vec![];
+        let mut used = 0u32;
+        for (k, (to, w)) in ls.iter().enumerate() {
+            let pos = cuts[k] + used;
+            used += *w as u32;
+            links.push(Link { to: *to, width: *w, pos, adj: 0 });
+        }
+        nodes.push(NodeSpec { size, links });
+    }
+    if adjust {
+        let leaf: Vec<bool> = nodes.iter().map(|n| n.links.is_empty()).collect();
+        for nd in nodes.iter_mut() {
+            let size = nd.size;
+            for l in nd.links.iter_mut() {
+                if leaf[l.to] && r.bool() {
+                    l.adj = match r.below(4) {
+                        0 => size,
+                        1 => r.below(size.min(64) as u64 + 1) as u32,
+                        _ => r.below(size as u64 + 1) as u32,
+                    };
+                }
+            }
+        }
+    }
+    Spec::new(nodes, None)
+}
+
+fn random_graphs(ctx: &mut Ctx) {
+    let count: u64 = ctx.tier.pick(120_000, 1_500_000);
+    for k in 0..count {
+        if !ctx.mine(k as usize) {
+            continue;
+        }
+        let mut r = Rng::derive(ctx.seed, "c05-rand", k);
+        let spec = random_spec(&mut r);
+        let id = format!("rand:seed{}:i{}", ctx.seed, k);
+        let out = run_graph_case(ctx, &spec, "rand", &id);
+        if out.outcome == "success" || out.outcome == "packing_failed" || out.outcome == "panic" {
+            let n = spec.nodes.len();
+            let bucket = if n <= 8 { "2-8" } else if n <= 20 { "9-20" } else { "21-40" };
+            ctx.count(&format!("rand:nodes_{}:{}", bucket, out.outcome), 1);
+            if spec.has_sharing() {
+                ctx.count("rand:with_shared_objects", 1);
+            }
+            if spec.has_multilink() {
+                ctx.count("rand:with_multi_links", 1);
+            }
+            if spec.has_adjustment() {
+                ctx.count("rand:with_adjustments", 1);
+            }
+            if spec.total_size() > 65535 {
+                ctx.count("rand:total_size_above_64k", 1);
+            }
+            let mut d = Digest::new();
+            d.u64(n as u64);
+            d.u64(spec.n_links() as u64);
+            ctx.distinct("rand:distinct_(nodes,links)", d.finish());
+        }
+    }
+}
+
+// ---------------------------------------------------------------- replay
+
+fn replay(ctx: &mut Ctx, _args: &Args, rec: &Value, _bytes: Option<&[u8]>) {
+    let d = &rec["detail"];
+    if let Some(spec) = Spec::from_json(&d["spec"]) {
+        let id = d["case"].as_str().unwrap_or("replay").to_string();
+        let out = run_graph_case(ctx, &spec, "replay", &id);
+        eprintln!("replay {}: outcome={} trace={}", id, out.outcome, out.trace);
+    } else if d["recipe"].is_object() {
+        gpos::replay(ctx, &d["recipe"]);
+    } else {
+        ctx.inconclusive("replay record carries neither a graph spec nor a GPOS recipe");
+    }
 }
